@@ -11,6 +11,40 @@ ALIAS = [0, 64, 65, 66, 129, 130, 257, 258, 4097, 4098, 65537, 65538, 16777216, 
          0x80000001, 0x80000002, 0xffffffc1, 0xffffffc2, 0xfffffffe, 0xffffffff]
 
 
+def filter_from_configuration(ctx):
+    """how the list gets to the decoder: the real flagSet() with the filter on the command line (comma list, repeated
+    flag), in the configuration file, in both; the types the operator listed are the types in opts.SFlowTypeFilter"""
+    import os
+    drv = ctx.go_build_test("vflow", ["vflow/options_verif_test.go"])
+    d = ctx.subdir("c18cfg")
+    big = 4294967295
+    cases = [([], None, []), (["-sflow-type-filter", "1"], None, [1]), (["-sflow-type-filter", "2"], None, [2]),
+             (["-sflow-type-filter", "1,2"], None, [1, 2]), (["-sflow-type-filter", "2,1"], None, [1, 2]),
+             (["-sflow-type-filter", "%d,7" % big], None, [7, big]), (["-sflow-type-filter", "0"], None, [0]),
+             (["-sflow-type-filter", "10"], None, [10]), (["-sflow-type-filter", "08"], None, [8]),
+             (["-sflow-type-filter", "2", "-sflow-type-filter", "1"], None, [1, 2]),
+             ([], "sflow-type-filter: [2]\n", [2]), ([], "sflow-type-filter: [1, 2]\n", [1, 2]), ([], "sflow-type-filter: []\n", []),
+             ([], "sflow-type-filter:\n- 1\n- 7\n", [1, 7]),
+             (["-sflow-type-filter", "1"], "sflow-type-filter: [2]\n", None)]
+    cin, cout = os.path.join(d, "cases.ndjson"), os.path.join(d, "out.ndjson")
+    vlib.write_ndjson(cin, [{"id": i, "env": {}, "file": f, "cli": cli} for i, (cli, f, _) in enumerate(cases)])
+    rc, log, to = ctx.go_run(drv, "TestVerifOptions", env={"VERIF_CASES": cin, "VERIF_OUT": cout}, timeout=300)
+    if rc != 0 or to:
+        raise vlib.Infra("options driver failed:\n" + log[-2000:])
+    for (cli, f, want), r in zip(cases, vlib.read_ndjson(cout)):
+        ctx.count(["filter-config", cli, f], nontrivial=bool(cli or f))
+        if r.get("panic"):
+            ctx.violation("flagSet panicked for the sflow type filter given as %s / %r" % (cli, f), {"cli": cli, "file": f}, key="filter-config")
+            continue
+        got = next((x["val"] for x in r["fields"] if x["yaml"] == "sflow-type-filter"), None) or []
+        ok = set(got) == set(want) if want is not None else set(got) >= {1}      # both given: the command line's types are listed
+        if not ok:
+            ctx.violation("sflow type filter given as command line %s / configuration file %r: the decoder is handed the list %s, the operator "
+                          "listed %s" % (cli, f, got, want if want is not None else "1 (command line) and 2 (file)"),
+                          {"cli": cli, "file": f, "got": got}, key="filter-config")
+    ctx.traces_validated += len(cases)
+
+
 def check(ctx):
     thorough = ctx.tier == "thorough"
     ctx.rule = ("every datagram of the bounded-exhaustive sFlow exporter (SFlowGen.tla; TLC checks FilterTransparent for 8 filter lists "
@@ -74,6 +108,7 @@ def check(ctx):
                       {"buf": rr["buf"], "filter": rr["filter"], "real": rr["res"]})
     else:
         ctx.traces_validated += len(sub)
+    filter_from_configuration(ctx)
     from props import c12
     c12.parallel_stage(ctx, thorough, protos=["sflow"], sflow_filter=[7, 2])
     # binding self-test: a filtered-out sample put back must be rejected
